@@ -17,7 +17,7 @@ RULE = ('event sequences from boot over {ACCEPT, REFUSE, TICK (incl. TCP timeout
 ASSUMPTIONS = ['simulated Twisted reactor/connector/transport (verif/shims)',
                'reference profile vlib/fsm_profile.py: allowed-outcome sets are wider than one behaviour in six documented rows (DESIGN.md 3.3)',
                'REST state endpoint is the reported state']
-SHARD_TIMEOUT = {'quick': 300, 'thorough': 1800}
+SHARD_TIMEOUT = {'quick': 600, 'thorough': 1800}
 CFGS = {
     'default': {},
     'retry40': {'connect_retry_time': 40},
@@ -27,7 +27,7 @@ DEPTH = {'quick': {'default': (3, 6), 'retry40': (3, 5), 'small': (3, 6)},
          'thorough': {'default': (4, 9), 'retry40': (4, 8), 'small': (4, 9)}}
 PARTS = {'quick': 5, 'thorough': 5}
 WALKS = {'quick': (600, 300), 'thorough': (15000, 300)}
-BUDGET = {'quick': 50, 'thorough': 1000}
+BUDGET = {'quick': 300, 'thorough': 1000}
 MON = [ProfileMonitor, EstabMonitor]
 # prefix-seeded exploration: sessions whose timers coincide with the boot / idle-hold / retry timers, second sessions,
 # stopped peerings - states a breadth-first search from boot reaches only at depth 8-10
@@ -132,6 +132,9 @@ def floors(m, tier):
     unmet = ['(state,event) pair never exercised: %s + %s' % p for p in REQUIRED_PAIRS if ('%s + %s' % p) not in have]
     if m['counters'].get('established_entries_checked', 0) < 50:
         unmet.append('fewer than 50 Established observations')
+    if tier == 'quick' and m['counters'].get('truncated_shards', 0):
+        # the breadth-first part is meant to complete in the quick tier: a search cut by its time box is not 'held'
+        unmet = list(unmet) + ['%d breadth-first shard(s) were cut by their time box' % m['counters']['truncated_shards']]
     return unmet[:8]
 
 
